@@ -424,6 +424,10 @@ pub(crate) fn end_keywords() {
 }
 
 pub(crate) fn current_version() -> Option<Version> {
+    #[cfg(sv_parser_verif)]
+    if crate::verif::version_frozen() {
+        return None;
+    }
     CURRENT_VERSION.with(|current_version| match current_version.borrow().last() {
         Some(x) => Some(*x),
         None => None,
